@@ -549,6 +549,9 @@ def execStmt (w : World τ) (a : ActId) (fs : List (Frame τ)) : Stmt τ → Wor
       | .instant => [5, 0, 1]
       | .ref n => (match (lookup w.condNames n).map (fun c => (w.cond c).kind) with
         | some (.delay d) => 0 :: tArgs d            -- a kept `time + d` object: a delay from now
+        | some (.after d _) => 1 :: tArgs d          -- a kept `time >= d` / `time == d` / `time < d` object
+        | some (.moment d _) => 2 :: tArgs d
+        | some (.before d) => 3 :: tArgs d
         | _ => [9, 0, 1])
       | _ => [9, 0, 1]
     match w.buildCond c with
